@@ -142,6 +142,12 @@ class Ctx:
             else:
                 new.append((key, vs))
         rc = 0
+        try:
+            for f in os.listdir(REPLAYS):
+                if f.startswith(self.pid + "-"):
+                    os.unlink(os.path.join(REPLAYS, f))      # witnesses of earlier runs are stale
+        except OSError:
+            pass
         for key, vs in new:
             os.makedirs(REPLAYS, exist_ok=True)
             safe = re.sub(r"[^A-Za-z0-9_.-]+", "_", key)[:80]
